@@ -1136,3 +1136,69 @@ class FreshParser(Contract):
         else:
             out['holds-exactly-the-tokens-of-the-data-given'] = len(tq) == n
         return out
+
+
+# ====================================================================== C05: retrieval calls interleaved with each other and with feeding
+_INTERLEAVE = Harness('''
+    def do(p, how, late):
+        out = []
+        it = iter(p)
+        if how == 'get-inside-iteration':
+            out.append(('iter', next(it)))
+            out.append(('get', p.get_message()))
+            for m in it:
+                out.append(('iter', m))
+        elif how == 'arrival-during-iteration':
+            out.append(('iter', next(it)))
+            for x in late:
+                p.messages.append(x)              # what a feed() between two next() calls does to the queue
+            for m in it:
+                out.append(('iter', m))
+        elif how == 'two-iterators':
+            it2 = iter(p)
+            out.append(('iter', next(it)))
+            out.append(('iter2', next(it2)))
+            for m in it:
+                out.append(('iter', m))
+            for m in it2:
+                out.append(('iter2', m))
+        out.append(('pending', p.pending()))
+        out.append(('get', p.get_message()))
+        return out
+''')
+
+
+@contract
+class RetrievalInterleaved(Contract):
+    """an open iterator, get_message() and a second iterator share one queue: whatever the interleaving, every message comes out
+    exactly once and in FIFO order, an iterator stops (without exception) exactly when nothing is pending at that moment, and
+    messages that arrive while it is open are delivered by it"""
+    key = 'C05.retrieval-interleaved'
+    target = 'mido.parser:Parser.__iter__'
+    properties = ('C05',)
+    configs = tuple({'how': how, 'n': n, 'late': k} for how in ('get-inside-iteration', 'arrival-during-iteration', 'two-iterators')
+                    for n in (1, 2, 3, 4) for k in ((0, 2) if how == 'arrival-during-iteration' else (0,)) if not (how == 'two-iterators' and n < 2))
+    raises = {}
+    symbolic_only = True
+
+    def callee(self, h, cfg):
+        return _INTERLEAVE.get(h)
+
+    def inputs(self, h, cfg):
+        import mido.parser as P
+        import mido.tokenizer as T
+        h.items = [Earlier(i) for i in range(cfg['n'])]
+        h.late = [Earlier(100 + i) for i in range(cfg['late'])]
+        t = h.obj(T.Tokenizer, {'_status': 0, '_bytes': [], '_messages': collections.deque(), '_datalen': 0})
+        h.p = h.obj(P.Parser, {'messages': collections.deque(h.items), '_tok': t})
+        return [h.p, cfg['how'], list(h.late)], {}
+
+    def ensures(self, h, cfg, a, r):
+        body = r[:-2]
+        got = [x for (k, x) in body if x is not None]
+        want = h.items + h.late
+        nones = [k for (k, x) in body if x is None]
+        out = {'every-message-exactly-once-in-fifo-order': len(got) == len(want) and all(x is y for x, y in zip(got, want)),
+               'nothing-pending-afterwards': r[-2] == ('pending', 0) and r[-1] == ('get', None),
+               'None-only-from-get_message-on-an-empty-queue': nones == (['get'] if (cfg['how'] == 'get-inside-iteration' and cfg['n'] == 1) else [])}
+        return out
